@@ -303,4 +303,158 @@ theorem boostedRewards_spec {mem : BCfg} {f : Nat} {g g' : Weekly.St} {c c' : BS
         · exact absurd hemp hne
         · exact hl.symm
 
+/-! ### the claim loop -/
+
+/-- the effect of the claim loop over `n` weeks starting at `a.p.week` -/
+structure LoopEff (mem : BCfg) (n : Nat) (a a' : Weekly.ClaimAcc BSt) : Prop where
+  week : a'.p.week = a.p.week + n
+  frame : Weekly.FrameR a'.g a.g
+  outside : ∀ w, (w < a.p.week ∨ a.p.week + n ≤ w) →
+    a'.g.totalRewards w = a.g.totalRewards w ∧ a'.c.accum w = a.c.accum w ∧
+    a'.c.remaining w = a.c.remaining w ∧ a'.c.paidW w = a.c.paidW w
+  cutW : a'.c.cutW = a.c.cutW
+  collW : a'.c.collW = a.c.collW
+  fsw : a'.c.farmSupplyWeek = a.c.farmSupplyWeek
+  mono : ∀ w, a.c.paidW w ≤ a'.c.paidW w
+  rewards : sumRewards a'.rewards = sumRewards a.rewards +
+    ((List.range n).map fun i => a'.c.paidW (a.p.week + i) - a.c.paidW (a.p.week + i)).sum
+  pool : (∀ w, a.p.week ≤ w → w < a.p.week + n → RemOk a.g a.c w) → PoolRel a.c a'.c
+  remOk : ∀ w, RemOk a.g a.c w → RemOk a'.g a'.c w
+  cfg : a'.c.cfg = a.c.cfg ∨ a'.c.cfg = some mem
+
+theorem claimLoop_pool {mem : BCfg} {f : Nat} :
+    ∀ (n : Nat) {a a' : Weekly.ClaimAcc BSt},
+      Weekly.claimLoop (boostedRewards mem f) n a = some a' → LoopEff mem n a a' := by
+  intro n
+  induction n with
+  | zero =>
+    intro a a' h
+    simp only [Weekly.claimLoop, Option.some.injEq] at h
+    subst h
+    exact ⟨rfl, Weekly.FrameR.refl _, fun _ _ => ⟨rfl, rfl, rfl, rfl⟩, rfl, rfl, rfl,
+      fun _ => Nat.le_refl _, by simp, fun _ => PoolRel.refl _, fun _ hh => hh, Or.inl rfl⟩
+  | succ n ih =>
+    intro a a' h
+    simp only [Weekly.claimLoop, Option.bind_eq_some_iff] at h
+    obtain ⟨a1, h1, h2⟩ := h
+    obtain ⟨r, hr, hp, hrw⟩ := Weekly.claimSingle_spec h1
+    have e1 := boostedRewards_eff hr
+    have e2 := ih h2
+    have hw1 : a1.p.week = a.p.week + 1 := by rw [hp]; rfl
+    have hout2 := e2.outside
+    rw [hw1] at hout2
+    refine ⟨by rw [e2.week, hw1]; omega, e2.frame.trans e1.frame, ?_, e2.cutW.trans e1.cutW,
+      e2.collW.trans e1.collW, e2.fsw.trans e1.fsw, ?_, ?_, ?_, ?_, ?_⟩
+    · intro w hw
+      obtain ⟨x1, x2, x3, x4⟩ := hout2 w (by omega)
+      obtain ⟨y1, y2, y3, y4⟩ := e1.other w (by omega)
+      exact ⟨x1.trans y1, x2.trans y2, x3.trans y3, x4.trans y4⟩
+    · intro w
+      refine Nat.le_trans ?_ (e2.mono w)
+      by_cases hw : w = a.p.week
+      · subst hw; rw [e1.paid]; omega
+      · rw [(e1.other w hw).2.2.2]
+    · have hfun : (fun i => a'.c.paidW (a1.p.week + i) - a1.c.paidW (a1.p.week + i)) =
+          (fun i => a'.c.paidW (a.p.week + (i + 1)) - a.c.paidW (a.p.week + (i + 1))) := by
+        funext i
+        rw [hw1, show a.p.week + 1 + i = a.p.week + (i + 1) by omega,
+          (e1.other (a.p.week + (i + 1)) (by omega)).2.2.2]
+      have hp0 : a'.c.paidW a.p.week = a1.c.paidW a.p.week := (hout2 a.p.week (by omega)).2.2.2
+      rw [e2.rewards, hfun, hrw, sumRewards_append, List.range_succ_eq_map, List.map_cons,
+        List.sum_cons, List.map_map]
+      have : a'.c.paidW (a.p.week + 0) - a.c.paidW (a.p.week + 0) = sumRewards r := by
+        rw [Nat.add_zero, hp0, e1.paid]; omega
+      rw [this]
+      simp only [Function.comp_def, Nat.succ_eq_add_one]
+      omega
+    · intro hok
+      have p1 := e1.poolRel (hok _ (Nat.le_refl _) (by omega))
+      refine p1.trans (e2.pool ?_)
+      intro w hw1' hw2'
+      exact e1.remOk_all w (hok w (by omega) (by omega))
+    · intro w hok
+      exact e2.remOk w (e1.remOk_all w hok)
+    · rcases e2.cfg with h2c | h2c
+      · rw [h2c]; exact e1.cfg
+      · exact Or.inr h2c
+
+/-! ### auxiliary: sums over week windows, `totalRewardsForWeek` through the energy update -/
+
+theorem sum_map_zero {l : List Nat} {d : Nat → Nat} (h : ∀ i ∈ l, d i = 0) : (l.map d).sum = 0 := by
+  induction l with
+  | nil => rfl
+  | cons x l ih =>
+    rw [List.map_cons, List.sum_cons, h x (List.mem_cons_self ..), ih (fun i hi => h i (List.mem_cons_of_mem _ hi))]
+
+/-- a sum over a window `[b, b+m)` of a function that vanishes outside the sub-window `[a, a+n)` -/
+theorem sum_window (d : Nat → Nat) (a n b m : Nat) (hz : ∀ w, (w < a ∨ a + n ≤ w) → d w = 0)
+    (h1 : b ≤ a) (h2 : a + n ≤ b + m) :
+    ((List.range m).map fun i => d (b + i)).sum = ((List.range n).map fun i => d (a + i)).sum := by
+  obtain ⟨k, rfl⟩ := Nat.exists_eq_add_of_le h1
+  obtain ⟨t, rfl⟩ : ∃ t, m = k + n + t := ⟨b + m - (b + k + n), by omega⟩
+  rw [List.range_add, List.range_add, List.map_append, List.map_append, List.sum_append,
+    List.sum_append, List.map_map, List.map_map]
+  rw [sum_map_zero (l := List.range k), sum_map_zero (l := List.range t)]
+  · simp only [Function.comp_def, Nat.add_assoc, Nat.zero_add, Nat.add_zero]
+  · intro i _
+    exact hz _ (Or.inr (by simp only; omega))
+  · intro i hi
+    exact hz _ (Or.inl (by have := List.mem_range.mp hi; omega))
+
+theorem shiftN_totalRewards : ∀ (n : Nat) {x y : Weekly.St} {t t' : Weekly.Totals},
+    Weekly.shiftN n x t = some (y, t') → y.totalRewards = x.totalRewards := by
+  intro n
+  induction n with
+  | zero =>
+    intro x y t t' hh
+    simp only [Weekly.shiftN, Option.some.injEq, Prod.mk.injEq] at hh
+    rw [← hh.1]
+  | succ n ih =>
+    intro x y t t' hh
+    simp only [Weekly.shiftN, Option.bind_eq_some_iff] at hh
+    obtain ⟨⟨x1, t1⟩, hh1, hh2⟩ := hh
+    have := ih hh2
+    simp only [Weekly.shiftOnce, Option.bind_eq_bind, Option.bind_eq_some_iff, sub?_eq_some,
+      Option.pure_def, Option.some.injEq, Prod.mk.injEq] at hh1
+    obtain ⟨_, _, rfl, _⟩ := hh1
+    exact this
+
+/-- the weekly update only clears `totalRewardsForWeek(W − 5)` -/
+theorem performWeeklyUpdate_totalRewards {g g' : Weekly.St} {W : Nat}
+    (h : Weekly.performWeeklyUpdate g W = some g') (w : Nat) (hw : w + 5 ≠ W) :
+    g'.totalRewards w = g.totalRewards w := by
+  unfold Weekly.performWeeklyUpdate at h
+  split at h
+  · simp only [Option.some.injEq] at h; subst h; rfl
+  split at h
+  · simp only [Option.some.injEq] at h; subst h; rfl
+  · simp only [Option.bind_eq_bind, Option.bind_eq_some_iff, req_eq_some] at h
+    obtain ⟨_, _, ⟨g2, t2⟩, hs, hfin⟩ := h
+    have e := shiftN_totalRewards _ hs
+    simp only at e
+    split at hfin
+    · rename_i hW
+      simp only [Option.pure_def, Option.some.injEq] at hfin
+      subst hfin
+      have hne : w ≠ W - Weekly.USER_MAX_CLAIM_WEEKS - 1 := by
+        simp only [Weekly.USER_MAX_CLAIM_WEEKS] at hW ⊢; omega
+      simp only [Weekly.upd_other _ _ hne]
+      rw [e]
+    · simp only [Option.pure_def, Option.some.injEq] at hfin
+      subst hfin
+      simp only
+      rw [e]
+
+theorem updateUserEnergy_totalRewards {g g1 : Weekly.St} {W : Nat} {cur : Energy}
+    {o : Option ClaimProgress}
+    (h : Weekly.updateUserEnergyForCurrentWeek g W cur o = some g1) (w : Nat) (hw : w + 5 ≠ W) :
+    g1.totalRewards w = g.totalRewards w := by
+  rw [Weekly.updateUserEnergyForCurrentWeek_eq] at h
+  simp only [Weekly.updateGlobal, Option.bind_eq_bind, Option.bind_eq_some_iff, req_eq_some] at h
+  obtain ⟨ga, ha1, _, _, ⟨gb, bp⟩, hre, gc, htk, hen⟩ := h
+  dsimp only at htk hen
+  rw [(Weekly.updateTotalEnergy_spec hen).2.2.2.2.2.1, (Weekly.updateTotalTokens_spec htk).2.2.2.2.2.1,
+    (Weekly.reallocate_spec hre).2.2.1.totalRewards]
+  exact performWeeklyUpdate_totalRewards ha1 w hw
+
 end Mx.Farm
